@@ -387,6 +387,17 @@ func c12Family(thorough bool) []*c12Func {
 			}
 		}
 	}
+	// a start or bound that is arithmetic on CONSTANTS held in narrow variables: the sum wraps before
+	// it is divided or shifted ((200+100)/2 is 22 in uint8, not 150)
+	for _, ex := range []struct{ id, pre, s, n string }{
+		{"start=(lo+hi)/2", "lo, hi := uint8(200), uint8(100)\n", "(lo+hi)/2", ""},
+		{"start=(lo+hi)>>1", "lo, hi := uint8(200), uint8(100)\n", "(lo+hi)>>1", ""},
+		{"bound=(lo+hi)/2", "lo, hi := uint8(200), uint8(100)\n", "", "(lo+hi)/2"},
+	} {
+		l := &c12Loop{id: 0, v: "i", typ: "uint8", start: "0", bound: "100", op: "<", step: 1, shape: "for3", rawN: ex.n, rawS: ex.s}
+		c12Gen(l, [2]string{})
+		add("uint8/for3/i</"+ex.id+"/step=+1/constant-arithmetic-that-wraps", []*c12Loop{l}, ex.pre+l.plain, ex.pre+l.native)
+	}
 	// geometric counters (i *= c): no start-plus-k-times-step description of them is right
 	for _, shape := range []string{"for3", "while", "exittrue"} {
 		for _, op := range []string{"<", "<=", "!="} {
